@@ -342,8 +342,8 @@ def obligations(tier):
                               describe=f"{cls}: a holder may keep the lock for the whole grace period (30 s) and hand it over at the last moment while "
                                        "the other process has been waiting all along"))
         if not q:
-            obs.append(Obligation(f"lock-bmc-{short}-longhold-k3", None, None, CODE, custom=make_bmc(cls, 3, 16, 1, 1, GRACE_TICKS),
-                                  bounds=dict(processes=3, rounds=1, macro_steps=16, step_delay_s=5, hold_bound_s=30),
+            obs.append(Obligation(f"lock-bmc-{short}-longhold-k3", None, None, CODE, custom=make_bmc(cls, 3, 14, 1, 1, GRACE_TICKS),
+                                  bounds=dict(processes=3, rounds=1, macro_steps=14, step_delay_s=5, hold_bound_s=30),
                                   describe=f"{cls}: long hold, hand-over to a third process"))
         obs.append(Obligation(f"lock-bmc-{short}-k3", None, None, CODE, custom=make_bmc(cls, 3, 12 if q else 14, 1, 1, 2),
                               bounds=dict(processes=3, rounds=1, macro_steps=12 if q else 14, step_delay_s=5, hold_bound_s=10),
